@@ -234,7 +234,8 @@ func sameKindValue(r *rand.Rand, v qt.Value, where string) (qt.Value, string) {
 	case qt.VInt:
 		return qt.Int([]int{0, 1, -1, 7, 12345, -99, 2147483648, 1000000}[r.Intn(8)]), "int"
 	case qt.VFloat:
-		return qt.Float([]string{"0.5", "-2.75", "3.14159", "0.001", "1234.5678", "1e-7", "2.5e21"}[r.Intn(7)]), "float"
+		// whole-valued floats included: 2.0 is a float64 parameter, not an int
+		return qt.Float([]string{"0.5", "-2.75", "3.14159", "0.001", "1234.5678", "1e-7", "2.5e21", "2.0", "3.00", "-7.0", "100.0", "1e3", "0.0"}[r.Intn(13)]), "float"
 	case qt.VWild:
 		return qt.Wild([]string{"*", "?", "a*", "*b", "x?y", "ab*cd?", "q??", `b\*c*`, `x\?y?`, "?*", "a*?"}[r.Intn(11)]), "pattern"
 	case qt.VRegexp:
